@@ -31,6 +31,9 @@ def declare(c):
     c.rule('C08.R7', 'after a G0/G1 the tracked native position is logical*unit+offset+homeOffset (absolute) or '
                      'current+logical*unit (relative) for every axis named, whatever the region tests answered; the same '
                      'for a list of points handed to isAnyPointExcluded', floor=20)
+    c.rule('C08.R8', 'frame conditions of the AxisPosition mutators: each changes only its own fields (homing: position and G92 '
+                     'offset; G90/G91: the mode; G20/G21: the unit factor; G92: the offset; M206: home offset and position; a '
+                     'move: the position) - units and positioning mode survive homing, offsets survive a change of units', floor=6)
     c.rule('C08.R5', 'the arc handlers hand processLinearMoves coordinates that are valid in the current positioning mode', floor=2)
 
 
@@ -121,6 +124,51 @@ def laws(ctx, I):
             x = live_alts(s, s.heap[('A', fld)])
             if not all(isinstance(c, Num) and c.is_const() and c.p.const_value() == 0 for c in x):
                 ctx.report('C08.R2', 'AxisPosition.setHome', 'homing leaves %s = %r' % (fld, x), 'G28 must zero position and G92 offset')
+
+
+FRAMES = {
+    'setHome': ((), ('current', 'offset')),
+    'setAbsoluteMode': (('flag',), ('absoluteMode',)),
+    'setUnitMultiplier': (('num+',), ('unitMultiplier',)),
+    'setLogicalOffsetPosition': (('num',), ('offset',)),
+    'setHomeOffset': (('num',), ('homeOffset', 'current')),
+    'setLogicalPosition': (('num',), ('current',)),
+}
+
+
+def frame_rule(ctx, I):
+    for meth, (argkinds, may_change) in sorted(FRAMES.items()):
+        c, fn = I.m.lookup(AX, meth)
+        if fn is None:
+            raise AnalysisError('anchor vanished: AxisPosition.%s' % meth)
+        st = State()
+        A = axis(st, I, 'A', None)
+        st0 = dict((fld, st.heap[('A', fld)]) for fld in FIELDS)
+        args = []
+        for k in argkinds:
+            if k == 'flag':
+                args.append(I.atom(('arg', meth, 'flag')))
+            elif k == 'num+':
+                args.append(I.symbol('arg:%s' % meth, frozenset([1])))
+            else:
+                args.append(I.symbol('arg:%s' % meth))
+        for (s, v) in I.run_method(st, AX, meth, A, args):
+            if isinstance(v, Raised):
+                continue
+            ctx.instance('C08.R8', (meth, tuple(sorted((repr(k), tuple(sorted(map(str, d)))) for k, d in s.dom.items() if k[0] != 'sgn'))[-2:]))
+            init = dict((fld, vkey(st0[fld])) for fld in FIELDS)
+            for e in s.trace:
+                if e[0] != 'write' or e[4] != 'A' or e[2] in may_change or e[2] not in FIELDS:
+                    continue
+                for x in live_alts(s, e[3]):
+                    if vkey(x) == init[e[2]]:
+                        continue
+                    if e[2] == 'absoluteMode' and x in (True, False) and s.dom.get(('fld', 'A', 'absoluteMode')) == frozenset([x]):
+                        continue        # re-assigned the value it was found to have
+                    ctx.report('C08.R8', 'AxisPosition.%s' % meth, '%s changes %s' % (meth, e[2]),
+                               '%s must leave %s alone (it becomes %r): for example homing must not cancel G91 or G20 - the '
+                               'firmware keeps units and positioning mode, so every later word would be mis-read'
+                               % (meth, e[2], getattr(x, 'p', x)))
 
 
 def native_args_rule(ctx, I, r1='C08.R1', r7='C08.R7'):
@@ -300,6 +348,7 @@ def run(ctx, tier):
     declare(ctx)
     I = make_interp(ctx.model, modular=False)
     laws(ctx, I)
+    frame_rule(ctx, make_interp(ctx.model, modular=False))
     I2 = make_interp(ctx.model)
     native_args_rule(ctx, I2)
     run_path_rules(ctx, __name__, 'sibling_paths', ['G20', 'G21', 'G90', 'G91', 'G0', 'G1', 'G2', 'G3'], unroll=1)
